@@ -302,7 +302,10 @@ func resolve(v ssa.Value) []ssa.Value {
 }
 
 func resolveDepth(v ssa.Value, depth int, seen map[ssa.Value]bool) []ssa.Value {
-	if depth > 20 || seen[v] {
+	if seen[v] {
+		return nil // a value re-encountered on a phi cycle contributes nothing new
+	}
+	if depth > 20 {
 		return []ssa.Value{v}
 	}
 	seen[v] = true
